@@ -374,3 +374,287 @@ Lemma encodable_acceptable c : encodableb c = true -> acceptableb c = true.
 Proof.
   unfold encodableb, acceptableb. rewrite !andb_true_iff. tauto.
 Qed.
+
+(* ------------------------------------------------------------------ the checked decoder equals the unguarded steps, minus the panics *)
+
+Definition demote {A} (r : Res A) : Res A := match r with Ok x => Ok x | _ => Rejected end.
+
+Lemma take_eq {A} bs c n (k : list byte -> Res A) :
+  0 <= c -> take bs c n k = match slice bs c (c + n) with Ok x => k x | _ => Rejected end.
+Proof.
+  intros Hc. unfold take, available, slice. fold (blen bs).
+  destruct (Z.leb_spec 0 n), (Z.leb_spec n (blen bs - c)); cbn [andb].
+  - replace ((0 <=? c) && (c <=? c + n) && (c + n <=? blen bs)) with true
+      by (symmetry; rewrite !andb_true_iff, !Z.leb_le; lia). reflexivity.
+  - replace ((0 <=? c) && (c <=? c + n) && (c + n <=? blen bs)) with false
+      by (symmetry; rewrite !andb_false_iff, !Z.leb_gt; lia). reflexivity.
+  - replace ((0 <=? c) && (c <=? c + n) && (c + n <=? blen bs)) with false
+      by (symmetry; rewrite !andb_false_iff, !Z.leb_gt; lia). reflexivity.
+  - replace ((0 <=? c) && (c <=? c + n) && (c + n <=? blen bs)) with false
+      by (symmetry; rewrite !andb_false_iff, !Z.leb_gt; lia). reflexivity.
+Qed.
+
+(** first byte of buf[c:] *)
+Lemma slice_from_head buf c sub b1 :
+  slice_from buf c = Ok sub -> slice sub 0 1 = Ok b1 -> exists b, index buf c = Ok b /\ b1 = [b].
+Proof.
+  intros Hs H1. pose proof (slice_ok_length _ _ _ _ Hs) as (Hc0 & Hc1 & _ & Hl).
+  pose proof (slice_ok_length _ _ _ _ H1) as (_ & _ & Hl1 & Hb1).
+  unfold slice_from, slice in Hs. destruct (_ && _); [|discriminate]. inversion Hs as [Hsub]. clear Hs.
+  unfold slice in H1. destruct (_ && _); [|discriminate]. inversion H1 as [Hb]. clear H1.
+  change (Z.to_nat (1 - 0)) with 1%nat in *. change (Z.to_nat 0) with 0%nat in *. change (skipn 0 sub) with sub in *.
+  rewrite firstn_all2 in Hsub by (rewrite skipn_length; lia).
+  unfold index. fold (blen buf) in *. fold (blen sub) in *.
+  replace ((0 <=? c) && (c <? blen buf)) with true by (symmetry; rewrite andb_true_iff, Z.leb_le, Z.ltb_lt; lia).
+  exists (nth (Z.to_nat c) buf x00). split; [reflexivity|].
+  rewrite <- Hsub.
+  assert (Hn : (Z.to_nat c < length buf)%nat) by (unfold blen in *; lia).
+  clear - Hn. revert Hn. generalize (Z.to_nat c). intros n. revert buf.
+  induction n as [|n IH]; intros [|x buf] Hn; cbn [length] in Hn; try lia; cbn [skipn nth firstn]; [reflexivity|].
+  apply IH. lia.
+Qed.
+
+Lemma to_int_U8_single b : to_int U8 [b] = Ok (Z_of_byte b).
+Proof.
+  unfold to_int. change (ity_width U8) with 1%nat. cbn [length Nat.ltb Nat.leb firstn le_val].
+  f_equal. pose proof (Z_of_byte_range b). rewrite Z.mul_0_r, Z.add_0_r. apply wrap_small. unfold in_ity. cbn. lia.
+Qed.
+
+(** one step of the shape loop: what dsvByteLength tests is exactly what dsFromBytes needs *)
+Lemma ds_step buf c :
+  0 <= c ->
+  (if blen buf <=? c then None
+   else match index buf c with
+        | Ok b => let next := c + 1 + Z_of_byte b + 1 in if blen buf <? next then None else Some next
+        | _ => None
+        end)
+  = match slice_from buf c with
+    | Ok sub => match ds_from_bytes sub with Ok (_, l) => Some (c + l) | _ => None end
+    | _ => None
+    end.
+Proof.
+  intros Hc.
+  destruct (Z.leb_spec (blen buf) c) as [Hge|Hlt].
+  - (* c >= len: buf[c:] is empty (or out of range) and dsFromBytes panics on it *)
+    destruct (slice_from buf c) as [sub| |] eqn:Hs; try reflexivity.
+    pose proof (slice_ok_length _ _ _ _ Hs) as (_ & _ & _ & Hl). fold (blen buf) in Hl. fold (blen sub) in Hl.
+    unfold ds_from_bytes. unfold slice at 1. fold (blen sub).
+    replace ((0 <=? 0) && (0 <=? 1) && (1 <=? blen sub)) with false by (symmetry; rewrite !andb_false_iff, !Z.leb_gt; lia).
+    reflexivity.
+  - assert (Hs : exists sub, slice_from buf c = Ok sub /\ blen sub = blen buf - c).
+    { unfold slice_from, slice. fold (blen buf).
+      replace ((0 <=? c) && (c <=? blen buf) && (blen buf <=? blen buf)) with true
+        by (symmetry; rewrite !andb_true_iff, !Z.leb_le; lia).
+      eexists. split; [reflexivity|]. unfold blen in *. rewrite firstn_length, skipn_length. lia. }
+    destruct Hs as (sub & Hs & Hl). rewrite Hs.
+    unfold ds_from_bytes.
+    destruct (slice sub 0 1) as [b1| |] eqn:H1.
+    2,3: exfalso; unfold slice in H1; fold (blen sub) in H1;
+         replace ((0 <=? 0) && (0 <=? 1) && (1 <=? blen sub)) with true in H1
+           by (symmetry; rewrite !andb_true_iff, !Z.leb_le; lia); discriminate.
+    destruct (slice_from_head _ _ _ _ Hs H1) as (b & Hi & ->). rewrite Hi.
+    cbn [bindR]. rewrite to_int_U8_single. cbn [bindR]. cbv zeta.
+    pose proof (Z_of_byte_range b) as Hb.
+    destruct (Z.ltb_spec (blen buf) (c + 1 + Z_of_byte b + 1)) as [Hout|Hin].
+    + (* the name or the type byte lies outside *)
+      destruct (slice sub 1 (1 + Z_of_byte b)) as [nm| |] eqn:Hn; cbn [bindR]; try reflexivity.
+      pose proof (slice_ok_length _ _ _ _ Hn) as (_ & _ & Hnl & _). fold (blen sub) in Hnl.
+      unfold index. fold (blen sub).
+      replace ((0 <=? 1 + Z_of_byte b) && (1 + Z_of_byte b <? blen sub)) with false
+        by (symmetry; rewrite andb_false_iff, Z.ltb_ge; lia).
+      reflexivity.
+    + unfold slice. fold (blen sub).
+      replace ((0 <=? 1) && (1 <=? 1 + Z_of_byte b) && (1 + Z_of_byte b <=? blen sub)) with true
+        by (symmetry; rewrite !andb_true_iff, !Z.leb_le; lia).
+      cbn [bindR]. unfold index. fold (blen sub).
+      replace ((0 <=? 1 + Z_of_byte b) && (1 + Z_of_byte b <? blen sub)) with true
+        by (symmetry; rewrite andb_true_iff, Z.leb_le, Z.ltb_lt; lia).
+      cbn [bindR]. f_equal. lia.
+Qed.
+
+Lemma dsv_len_loop_eq : forall n buf c,
+  0 <= c ->
+  dsv_len_loop n buf c = match dsv_loop n buf c with Ok (_, l) => Some l | _ => None end.
+Proof.
+  induction n as [|n IH]; intros buf c Hc; cbn [dsv_len_loop dsv_loop]; [reflexivity|].
+  pose proof (ds_step buf c Hc) as Hstep. cbv zeta in Hstep.
+  destruct (slice_from buf c) as [sub| |] eqn:Hs; cbn [bindR].
+  - destruct (ds_from_bytes sub) as [[ds l]| |] eqn:Hd; cbn [bindR].
+    + (* the test passes: both continue at c + l *)
+      assert (Hl : 1 <= l).
+      { unfold ds_from_bytes in Hd. apply bind_ok in Hd as (b1 & _ & Hd). apply bind_ok in Hd as (nl & Hnl & Hd).
+        apply bind_ok in Hd as (nm & Hnm & Hd). apply bind_ok in Hd as (t & _ & Hd).
+        apply slice_ok_length in Hnm. assert (l = 1 + nl + 1) by (inversion Hd; reflexivity). lia. }
+      destruct (blen buf <=? c); [discriminate Hstep|].
+      destruct (index buf c) as [b| |]; try discriminate Hstep.
+      destruct (blen buf <? c + 1 + Z_of_byte b + 1); [discriminate Hstep|].
+      inversion Hstep as [Hnext]. rewrite Hnext. rewrite IH by lia.
+      destruct (dsv_loop n buf (c + l)) as [[rest c']| |]; reflexivity.
+    + destruct (blen buf <=? c); [reflexivity|].
+      destruct (index buf c) as [b| |]; try reflexivity.
+      destruct (blen buf <? c + 1 + Z_of_byte b + 1); [reflexivity|discriminate Hstep].
+    + destruct (blen buf <=? c); [reflexivity|].
+      destruct (index buf c) as [b| |]; try reflexivity.
+      destruct (blen buf <? c + 1 + Z_of_byte b + 1); [reflexivity|discriminate Hstep].
+  - destruct (blen buf <=? c); [reflexivity|].
+    destruct (index buf c) as [b| |]; try reflexivity.
+    destruct (blen buf <? c + 1 + Z_of_byte b + 1); [reflexivity|discriminate Hstep].
+  - destruct (blen buf <=? c); [reflexivity|].
+    destruct (index buf c) as [b| |]; try reflexivity.
+    destruct (blen buf <? c + 1 + Z_of_byte b + 1); [reflexivity|discriminate Hstep].
+Qed.
+
+Lemma dsv_byte_length_eq buf :
+  dsv_byte_length buf = match dsv_from_bytes buf with Ok (_, l) => Some l | _ => None end.
+Proof.
+  unfold dsv_byte_length, dsv_from_bytes. destruct buf as [|b r].
+  - reflexivity.
+  - assert (H1 : slice (b :: r) 0 1 = Ok [b]).
+    { unfold slice. cbn [length]. replace ((0 <=? 0) && (0 <=? 1) && (1 <=? Z.of_nat (S (length r)))) with true
+        by (symmetry; rewrite !andb_true_iff, !Z.leb_le; lia). reflexivity. }
+    rewrite H1. cbn [bindR]. rewrite to_int_U8_single. cbn [bindR].
+    apply dsv_len_loop_eq. lia.
+Qed.
+
+Lemma to_int_of_slice t bs lo hi b :
+  slice bs lo hi = Ok b -> hi - lo = Z.of_nat (ity_width t) -> exists v, to_int t b = Ok v.
+Proof.
+  intros Hs Hw. apply slice_ok_length in Hs as (_ & _ & _ & Hl). unfold to_int.
+  destruct (Nat.ltb_spec (length b) (ity_width t)); [lia|]. eexists. reflexivity.
+Qed.
+
+Lemma parse_cmd_c_eq bs root c :
+  0 <= c ->
+  parse_cmd_c bs root c
+  = match parse_cmd bs root c with
+    | Ok (w, c') => if w_datalen w <? 0 then Rejected else Ok (w, c')
+    | _ => Rejected
+    end.
+Proof.
+  intros Hc. unfold parse_cmd_c, parse_cmd. cbv zeta.
+  unfold recordLenLenBytes, fpLenLenBytes, dataLenLenBytes, varRecLenLenBytes, offsetLenBytes, indexLenBytes.
+  rewrite take_eq by lia.
+  destruct (slice bs c (c + 1)) as [b1| |] eqn:S1; cbn [bindR]; try reflexivity.
+  destruct (to_int_of_slice I8 _ _ _ _ S1) as (rt & E1); [change (Z.of_nat (ity_width I8)) with 1; lia|]. rewrite E1. cbn [bindR].
+  rewrite take_eq by lia.
+  destruct (slice bs (c + 1) (c + 1 + 2)) as [b2| |] eqn:S2; cbn [bindR]; try reflexivity.
+  destruct (to_int_of_slice I16 _ _ _ _ S2) as (fplen & E2); [change (Z.of_nat (ity_width I16)) with 2; lia|]. rewrite E2. cbn [bindR].
+  rewrite take_eq by lia.
+  destruct (slice bs (c + 1 + 2) (c + 1 + 2 + fplen)) as [key| |] eqn:S3; cbn [bindR]; try reflexivity.
+  pose proof (slice_ok_length _ _ _ _ S3) as (_ & Hf & _ & _).
+  rewrite take_eq by lia.
+  destruct (slice bs (c + 1 + 2 + fplen) (c + 1 + 2 + fplen + 4)) as [b4| |] eqn:S4; cbn [bindR]; try reflexivity.
+  destruct (to_int_of_slice I32 _ _ _ _ S4) as (datalen & E4); [change (Z.of_nat (ity_width I32)) with 4; lia|]. rewrite E4. cbn [bindR].
+  rewrite take_eq by lia.
+  destruct (slice bs (c + 1 + 2 + fplen + 4) (c + 1 + 2 + fplen + 4 + 4)) as [b5| |] eqn:S5; cbn [bindR]; try reflexivity.
+  destruct (to_int_of_slice I32 _ _ _ _ S5) as (vrl & E5); [change (Z.of_nat (ity_width I32)) with 4; lia|]. rewrite E5. cbn [bindR].
+  replace (c + 1 + 2 + fplen + 4 + 4 + 8 + 8 + datalen) with (c + 1 + 2 + fplen + 4 + 4 + (8 + 8 + datalen)) by lia.
+  destruct (Z.ltb_spec datalen 0) as [Hneg|Hpos].
+  - (* negative data length: an error in the fixed code; the unguarded steps panic or return that length *)
+    destruct (slice bs (c + 1 + 2 + fplen + 4 + 4) (c + 1 + 2 + fplen + 4 + 4 + (8 + 8 + datalen))); cbn [bindR]; try reflexivity.
+    destruct (slice_from bs (c + 1 + 2 + fplen + 4 + 4 + (8 + 8 + datalen))); cbn [bindR]; try reflexivity.
+    destruct (dsv_from_bytes l0) as [[shapes l1]| |]; cbn [bindR]; try reflexivity.
+    cbn [w_datalen]. destruct (Z.ltb_spec datalen 0); [reflexivity|lia].
+  - rewrite take_eq by lia.
+    destruct (slice bs (c + 1 + 2 + fplen + 4 + 4) (c + 1 + 2 + fplen + 4 + 4 + (8 + 8 + datalen))) as [data| |] eqn:S6; cbn [bindR]; try reflexivity.
+    pose proof (slice_ok_length _ _ _ _ S6) as (_ & _ & Hhi & _).
+    destruct (slice_from bs (c + 1 + 2 + fplen + 4 + 4 + (8 + 8 + datalen))) as [rest| |] eqn:S7; cbn [bindR]; try reflexivity.
+    2: { exfalso. unfold slice_from, slice in S7.
+         replace ((0 <=? c + 1 + 2 + fplen + 4 + 4 + (8 + 8 + datalen))
+                  && (c + 1 + 2 + fplen + 4 + 4 + (8 + 8 + datalen) <=? Z.of_nat (length bs))
+                  && (Z.of_nat (length bs) <=? Z.of_nat (length bs))) with true in S7
+           by (symmetry; rewrite !andb_true_iff, !Z.leb_le; lia). discriminate. }
+    rewrite dsv_byte_length_eq.
+    destruct (dsv_from_bytes rest) as [[shapes l1]| |]; cbn [bindR]; try reflexivity.
+    cbn [w_datalen]. destruct (Z.ltb_spec datalen 0); [lia|reflexivity].
+Qed.
+
+Definition datalens_ok (ws : list wtset) : bool := forallb (fun w => 0 <=? w_datalen w) ws.
+
+Lemma parse_cmds_c_eq : forall n bs root c,
+  0 <= c ->
+  parse_cmds_c n bs root c
+  = match parse_cmds n bs root c with
+    | Ok ws => if datalens_ok ws then Ok ws else Rejected
+    | _ => Rejected
+    end.
+Proof.
+  induction n as [|n IH]; intros bs root c Hc; cbn [parse_cmds_c parse_cmds]; [reflexivity|].
+  rewrite parse_cmd_c_eq by exact Hc.
+  destruct (parse_cmd bs root c) as [[w c']| |] eqn:Hp; cbn [bindR]; try reflexivity.
+  apply parse_cmd_advances in Hp as (Hadv & _); [|exact Hc].
+  destruct (Z.ltb_spec (w_datalen w) 0) as [Hneg|Hpos]; cbn [bindR].
+  - destruct (parse_cmds n bs root c') as [ws| |]; cbn [bindR]; try reflexivity.
+    unfold datalens_ok. cbn [forallb]. replace (0 <=? w_datalen w) with false by (symmetry; apply Z.leb_gt; lia). reflexivity.
+  - rewrite IH by lia.
+    destruct (parse_cmds n bs root c') as [ws| |]; cbn [bindR]; try reflexivity.
+    unfold datalens_ok. cbn [forallb]. replace (0 <=? w_datalen w) with true by (symmetry; apply Z.leb_le; lia).
+    cbn [andb]. fold (datalens_ok ws). destruct (datalens_ok ws); reflexivity.
+Qed.
+
+(** the fixed decoder = the unguarded steps with every panic (and every negative data length) turned
+    into an error return *)
+Theorem parseTGData_eq bs root :
+  parseTGData bs root
+  = match ParseTGData bs root with
+    | Ok (id, ws) => if datalens_ok ws then Ok (id, ws) else Rejected
+    | _ => Rejected
+    end.
+Proof.
+  unfold parseTGData, ParseTGData, tgIDLenBytes, wtCountLenBytes.
+  rewrite take_eq by lia. change (0 + (8 + 8)) with 16.
+  destruct (slice bs 0 16) as [h| |] eqn:S0.
+  - pose proof (slice_ok_length _ _ _ _ S0) as (_ & _ & Hlen & _). fold (blen bs) in Hlen.
+    assert (S1 : exists b1, slice bs 0 8 = Ok b1).
+    { unfold slice. fold (blen bs). replace ((0 <=? 0) && (0 <=? 8) && (8 <=? blen bs)) with true
+        by (symmetry; rewrite !andb_true_iff, !Z.leb_le; lia). eexists; reflexivity. }
+    assert (S2 : exists b2, slice bs 8 (8 + 8) = Ok b2).
+    { unfold slice. fold (blen bs). replace ((0 <=? 8) && (8 <=? 8 + 8) && (8 + 8 <=? blen bs)) with true
+        by (symmetry; rewrite !andb_true_iff, !Z.leb_le; lia). eexists; reflexivity. }
+    destruct S1 as (b1 & S1). destruct S2 as (b2 & S2). rewrite S1, S2. cbn [bindR].
+    destruct (to_int_of_slice I64 _ _ _ _ S1) as (tgid & E1); [reflexivity|]. rewrite E1. cbn [bindR].
+    destruct (to_int_of_slice I64 _ _ _ _ S2) as (cnt & E2); [reflexivity|]. rewrite E2. cbn [bindR].
+    destruct (Z.ltb_spec cnt 0) as [Hneg|Hpos]; cbn [orb]; [reflexivity|].
+    destruct (Z.ltb_spec (blen bs) cnt) as [Hbig|Hsmall].
+    + (* more transactions than bytes: the unguarded loop cannot complete *)
+      rewrite Z.min_r by lia.
+      pose proof (parse_cmds_overcount (Z.to_nat (blen bs + 1)) bs root) as Ho.
+      unfold tgIDLenBytes, wtCountLenBytes in Ho. rewrite Ho by lia. reflexivity.
+    + rewrite Z.min_l by lia. rewrite parse_cmds_c_eq by lia.
+      destruct (parse_cmds (Z.to_nat cnt) bs root (8 + 8)) as [ws| |]; cbn [bindR]; try reflexivity.
+      destruct (datalens_ok ws); reflexivity.
+  - exfalso. eapply slice_not_rejected; exact S0.
+  - (* fewer than 16 bytes: one of the two header slices is out of range *)
+    assert (Hlen : blen bs < 16).
+    { unfold slice in S0. fold (blen bs) in S0. destruct (Z.leb_spec 16 (blen bs)) as [H|H]; [|exact H].
+      replace ((0 <=? 0) && (0 <=? 16) && true) with true in S0 by reflexivity. discriminate. }
+    destruct (slice bs 0 8) as [b1| |] eqn:S1; cbn [bindR]; try reflexivity.
+    destruct (to_int_of_slice I64 _ _ _ _ S1) as (tgid & E1); [reflexivity|]. rewrite E1. cbn [bindR].
+    destruct (slice bs 8 (8 + 8)) as [b2| |] eqn:S2; cbn [bindR]; try reflexivity.
+    apply slice_ok_length in S2. fold (blen bs) in S2. lia.
+Qed.
+
+(** the fixed decoder has no reachable out-of-range slice, index or make: for EVERY byte string *)
+Theorem parseTGData_no_panic bs root : parseTGData bs root <> Panic.
+Proof.
+  rewrite parseTGData_eq. destruct (ParseTGData bs root) as [[id ws]| |]; try discriminate.
+  destruct (datalens_ok ws); discriminate.
+Qed.
+
+Lemma parseTGData_ok bs root r : parseTGData bs root = Ok r -> ParseTGData bs root = Ok r.
+Proof.
+  rewrite parseTGData_eq. destruct (ParseTGData bs root) as [[id ws]| |]; try discriminate.
+  destruct (datalens_ok ws); [|discriminate]. intros H; inversion H; reflexivity.
+Qed.
+
+(** C28 for the code after the fix *)
+Theorem parse_serialize_roundtrip_checked : forall tgid cmds root,
+  in_ity I64 tgid -> Z.of_nat (length cmds) < 2 ^ 63 ->
+  forallb encodableb cmds = true ->
+  parseTGData (serializeTG tgid cmds) root = Ok (tgid, map (to_wtset root) cmds).
+Proof.
+  intros tgid cmds root Ht Hl He. rewrite parseTGData_eq, parse_serialize_roundtrip by assumption.
+  replace (datalens_ok (map (to_wtset root) cmds)) with true; [reflexivity|].
+  symmetry. unfold datalens_ok. rewrite forallb_forall. intros w Hw. apply in_map_iff in Hw as (c & <- & _).
+  cbn [to_wtset w_datalen]. apply Z.leb_le. apply blen_nonneg.
+Qed.
